@@ -27,9 +27,18 @@ tvars == <<vars, tr, l>>
 ToFn(pairs) == [k \in {pairs[i][1] : i \in DOMAIN pairs} |->
                   pairs[CHOOSE i \in DOMAIN pairs : pairs[i][1] = k][2]]
 
+(* Depth behaviours count from the root segment - the directory given to the walk -, the walker counts from the    *)
+(* directory it starts at: the given directory joined with the glob's invariant prefix.  The difference is the     *)
+(* number of components that the prefix adds (PathAlg!JoinDepthLaw); a configured bound b is the bound b - pivot    *)
+(* of the traversal, and nothing below zero.  cmin / cmax are the bounds as configured (100: none), prefix the      *)
+(* bytes of the native prefix that the real partition of the glob gave.                                            *)
+PA == INSTANCE PathAlg
+Pivot(t) == PA!JoinDepth(<<100>>, t.sc.prefix).depth       \* (any non-empty relative base: here `d`)
+AtPivot(b, t) == IF b >= 100 THEN b ELSE PA!Monus(b, Pivot(t))
+
 ScOf(t) ==
   [bypos |-> TRUE, root |-> t.sc.root, n |-> t.sc.n, parent |-> t.sc.parent, kind |-> t.sc.kind, target |-> t.sc.target,
-   readable |-> t.sc.readable, follow |-> t.sc.follow, min |-> t.sc.min, max |-> t.sc.max,
+   readable |-> t.sc.readable, follow |-> t.sc.follow, min |-> AtPivot(t.sc.cmin, t), max |-> AtPivot(t.sc.cmax, t),
    glob |-> t.sc.glob, comp |-> ToFn(t.sc.comp), match |-> ToFn(t.sc.match),
    layers |-> [i \in DOMAIN t.sc.layers |-> ToFn(t.sc.layers[i])]]
 
